@@ -107,6 +107,40 @@ def slice_pc(ob):
     return pcs, axs
 
 
+_STR_CACHE = {}
+
+
+def _has_string(t) -> bool:
+    k = t.get_id()
+    if k in _STR_CACHE:
+        return _STR_CACHE[k][0]
+    r = False
+    seen, stack = set(), [t]
+    while stack:
+        x = stack.pop()
+        if x.get_id() in seen:
+            continue
+        seen.add(x.get_id())
+        if z3.is_quantifier(x):
+            stack.append(x.body())
+            continue
+        try:
+            sk = x.sort().kind()
+        except z3.Z3Exception:  # pragma: no cover
+            sk = None
+        if sk in (z3.Z3_SEQ_SORT, z3.Z3_RE_SORT):
+            r = True
+            break
+        stack.extend(x.children())
+    _STR_CACHE[k] = (r, t)
+    return r
+
+
+def has_string_terms(ob) -> bool:
+    """Does the goal or the path condition of an obligation mention a string / regular-expression term?"""
+    return _has_string(ob.goal) or any(_has_string(p) for p in ob.pc)
+
+
 def to_smt2(prelude, ob, sliced=False) -> str:
     s = z3.Solver()
     pc, axioms = (list(ob.pc), list(ob.axioms))
@@ -126,14 +160,48 @@ def to_smt2(prelude, ob, sliced=False) -> str:
         pc, axioms = slice_pc(ob)
     if hasattr(prelude, "relevant_prelude"):
         prelude = prelude.relevant_prelude(axioms + pc + [ob.goal])
+    weighted = []
     for a in prelude:
-        s.add(a)
+        if z3.is_quantifier(a) and a.weight() != 1:
+            weighted.append(a)  # the benchmark printer drops :weight annotations: these are printed separately
+        else:
+            s.add(a)
     for a in axioms:
         s.add(a)
     for p in pc:
         s.add(p)
     s.add(z3.Not(ob.goal))
-    return s.to_smt2()
+    return with_weighted(s.to_smt2(), weighted)
+
+
+def with_weighted(text: str, weighted) -> str:
+    """Append quantified axioms that carry a :weight annotation (printed with sexpr, which keeps the annotation) to an
+    SMT-LIB benchmark text, declaring the function symbols that only they use."""
+    if not weighted:
+        return text
+    import re
+
+    declared = set(re.findall(r"\(declare-fun ([^ ]+) ", text))
+    decls, asserts = [], []
+    for a in weighted:
+        seen, stack = set(), [a.body()]
+        while stack:
+            t = stack.pop()
+            if t.get_id() in seen:
+                continue
+            seen.add(t.get_id())
+            if z3.is_app(t) and t.decl().kind() == z3.Z3_OP_UNINTERPRETED:
+                nm = t.decl().name()
+                if nm not in declared and "|%s|" % nm not in declared:
+                    declared.add(nm)
+                    decls.append(t.decl().sexpr())
+            if z3.is_quantifier(t):
+                stack.append(t.body())
+            else:
+                stack.extend(t.children())
+        asserts.append("(assert %s)" % a.sexpr())
+    idx = text.rfind("(check-sat)")
+    return text[:idx] + "\n".join(decls + asserts) + "\n" + text[idx:]
 
 
 def _run(cmd: List[str], timeout: float) -> Tuple[str, str, float]:
@@ -234,13 +302,19 @@ def discharge(prelude: List[Any], obligations: List[Any], timeout: float = 10.0,
     open_items = [it for it in open_items if it[1].kind != "vacuity"]
     # vacuity guards (goal False): only a contradiction (`unsat`) matters; one quick full query each
     run_round(vac_items, False, min(timeout, 2.0), backends[:1], "")
+    direct = []
     if os.environ.get("PYVC_NO_SLICING") == "1":
         remaining = open_items
     else:
         remaining = run_round(open_items, "ground", min(timeout, 2.0), backends[:1], "(ground-slice)")
+        if os.environ.get("PYVC_STRING_DIRECT") == "1":
+            # obligations over strings / regular expressions: the symbol-directed slices drop the membership facts that
+            # make them easy (and then run into their time limit); after the ground round they go straight to the full query
+            direct = [it for it in remaining if has_string_terms(it[2])]
+            remaining = [it for it in remaining if not has_string_terms(it[2])]
         remaining = run_round(remaining, "strict", min(timeout, 3.0), backends[:1], "(strict-slice)")
         remaining = run_round(remaining, True, min(timeout, 4.0), [b for b in backends if b in ("z3", "cvc5")], "(sliced)")
-    remaining = run_round(remaining, False, timeout, backends, "")
+    remaining = run_round(direct + remaining, False, timeout, backends, "")
     for idx, r, ob in open_items:
         if not r.smt2_path:
             for suf in ("", ".sliced", ".strict"):
@@ -249,6 +323,10 @@ def discharge(prelude: List[Any], obligations: List[Any], timeout: float = 10.0,
                     r.smt2_path = pth
                     break
     stubborn = [(idx, r, ob) for idx, r, ob in remaining if r.status not in ("unsat", "sat")]
+    if os.environ.get("PYVC_STRING_DIRECT") == "1":
+        # the weakened variants help when a set-theory / class axiom misleads the instantiation; they do not help string
+        # obligations, where they only multiply the time an open obligation costs
+        stubborn = [it for it in stubborn if not has_string_terms(it[2])]
     if stubborn and drop_portfolio and os.environ.get("PYVC_NO_DROP") != "1":
         variants = []
         for idx, r, ob in stubborn:
@@ -256,15 +334,19 @@ def discharge(prelude: List[Any], obligations: List[Any], timeout: float = 10.0,
                 if hasattr(prelude, "relevant_prelude") else list(prelude)
             for k in range(len(pre)):
                 sv = z3.Solver()
+                wv = []
                 for j, a in enumerate(pre):
                     if j != k:
-                        sv.add(a)
+                        if z3.is_quantifier(a) and a.weight() != 1:
+                            wv.append(a)
+                        else:
+                            sv.add(a)
                 for a in ob.axioms:
                     sv.add(a)
                 for pz in ob.pc:
                     sv.add(pz)
                 sv.add(z3.Not(ob.goal))
-                variants.append((r, write(idx, sv.to_smt2(), ".drop%d" % k), k))
+                variants.append((r, write(idx, with_weighted(sv.to_smt2(), wv), ".drop%d" % k), k))
 
         def vjob(item):
             r, vp, k = item
